@@ -235,6 +235,31 @@ def run(tier):
 
 
 def replay(path):
-    case = json.load(open(path))
-    print(json.dumps(case)[:4000])
-    return 1
+    """re-run the recorded case against the current tree: 1 if it still ends abnormally / unrejected"""
+    j = json.load(open(path))
+    case, line = j.get("case") or {}, j.get("line") or {}
+    if "blob" in case or "rules" not in case:
+        print(json.dumps(j)[:3000])
+        return 1
+    build()
+    res = Result("C08", "quick", "exploration")
+    wd = cli.Workdir("c08replay")
+    accepted = line.get("accepted", True)
+    lines = cli_case(wd, 0, 1, accepted, case=case)
+    # the library entry point in a process of its own
+    rp, dp = wd.write("lib/r.guard", case["rules"]), wd.write("lib/d.json", case["data"])
+    p = subprocess.run([GV, "run", "--rules", rp, "--data", dp], stdout=subprocess.PIPE, stderr=subprocess.PIPE, text=True, timeout=120)
+    wd.close()
+    bad = p.returncode != 0 or p.stdout.startswith("PANIC")
+    if bad:
+        print("library: rc=%d %s %s" % (p.returncode, p.stdout[:200], p.stderr[-200:]))
+    for k, l in enumerate(lines):
+        l["i"] = k + 1
+        e = l["end"]
+        abnormal = e["kind"] != "exit" or l["panic"] or e["code"] == 101
+        unrejected = (not accepted) and l["cmd"] in ("validate", "test", "parse-tree") and (e["code"] in (0, 19, 7) and l["cmd"] != "parse-tree" or l["evaluated"] > 0)
+        if abnormal or unrejected:
+            bad = True
+            print("%s %s: %s %s" % (l["cmd"], " ".join(l["_args"][1:]), e, l["_stderr"][:200]))
+    print("still failing" if bad else "no longer reproduces")
+    return 1 if bad else 0
